@@ -765,6 +765,60 @@ var scenarios = []scenario{
 		s.Insert("idx", numDocs(3), false)
 		s.Audit("the handle after recovered panics")
 	}},
+	{"long-string-sort-keys", "C02 C08 C01 C10", func(s *S) {
+		// six documents whose indexed strings differ only behind 8192 (and 1024) common bytes, ids in the opposite
+		// order of the values: an index that keeps a prefix of the value returns them in id order
+		q8, k1 := strings.Repeat("q", 8192), strings.Repeat("k", 1024)
+		vals := []string{q8 + "f", q8 + "e", q8 + "d", q8, k1 + "b", k1 + "a", k1, "plain"}
+		var docs []map[string]any
+		for i, v := range vals {
+			docs = append(docs, map[string]any{"_id": fixedID(i + 1), "v": v, "w": int64(i % 3)})
+		}
+		s.twins(docs, "v", "w")
+		for _, dir := range []int{1, -1} {
+			s.both(nil, model.SortOpt{Field: "v", Dir: dir})
+			s.both(cmpc(model.OpGt, "v", q8), model.SortOpt{Field: "v", Dir: dir})
+			s.both(cmpc(model.OpLtEq, "v", q8+"e"), model.SortOpt{Field: "v", Dir: dir})
+			s.both(cmpc(model.OpGtEq, "w", int64(0)), model.SortOpt{Field: "w", Dir: dir}, model.SortOpt{Field: "v", Dir: -dir})
+			for _, c := range []string{"plain", "idx"} {
+				s.FindAll(&model.Query{Coll: c, Sorted: true, Sort: []model.SortOpt{{Field: "v", Dir: dir}}, HasSkip: true, Skip: 1, HasLimit: true, Limit: 3})
+			}
+		}
+		s.both(cmpc(model.OpEq, "v", q8+"e"))
+		s.both(model.And(cmpc(model.OpGt, "v", k1), cmpc(model.OpLt, "v", k1+"b")))
+		s.AuditPhysical("index on strings with 8192 common bytes")
+	}},
+	{"builder-arguments-are-copied", "C08 C09", func(s *S) {
+		// a query keeps the options it was built with: the caller reusing its own slice afterwards (to build the
+		// descending twin, say) does not change a query that already exists
+		s.twins(numDocs(6), "x")
+		for _, c := range []string{"plain", "idx"} {
+			opts := []query.SortOption{{Field: "x", Direction: 1}, {Field: "_id", Direction: 1}}
+			asc := query.NewQuery(c).Sort(opts...)
+			opts[0].Direction = -1
+			opts[1].Field = "g"
+			desc := query.NewQuery(c).Sort(opts...).Skip(1).Limit(2)
+			opts[0].Field = "nope"
+			for _, pair := range []struct {
+				q *query.Query
+				m *model.Query
+			}{
+				{asc, &model.Query{Coll: c, Sorted: true, Sort: []model.SortOpt{{Field: "x", Dir: 1}, {Field: "_id", Dir: 1}}}},
+				{desc, &model.Query{Coll: c, Sorted: true, Sort: []model.SortOpt{{Field: "x", Dir: -1}, {Field: "g", Dir: 1}}, HasSkip: true, Skip: 1, HasLimit: true, Limit: 2}},
+			} {
+				name := "FindAll(" + pair.m.String() + ") built before the caller changed its options slice"
+				var docs []*document.Document
+				got, err := s.run(name, true, func() (e error) { docs, e = s.h.DB.FindAll(pair.q); return })
+				if !s.expect(name, []string{OK}, got, err) {
+					return
+				}
+				if p, inc := model.CheckResult(pair.m, s.coll(c).Docs, model.FromDocs(docs)); p != "" && !inc {
+					s.viol("query:aliases-caller-slice", "%s: %s", name, p)
+					return
+				}
+			}
+		}
+	}},
 	{"isolation-prefix-names-shared-ids", "C13 C06", func(s *S) {
 		names := []string{"c", "cc", "c:", "coll:", "", "cx"}
 		docs := numDocs(4)
